@@ -260,6 +260,7 @@ func runC05(c *core.Ctx) {
 			k.goit("add", "big")
 		}
 		k.MsgClass = w.Hist%2 == 1
+		megaHist := false
 		if idTwins(); twinTs && w.Hist%12 == 7 {
 			// two directories of one snapshot whose TREE ids share their first 32 bits
 			w.Write("twa/f", twinTreeA)
@@ -272,6 +273,19 @@ func runC05(c *core.Ctx) {
 		if w.Hist%24 == 17 {
 			k.DeepPaths()
 			k.goit("add", "deep", "long")
+		}
+		if w.Hist == 10 || (c.Thorough() && w.Hist%700 == 10) {
+			// one tree object beyond 1 MiB (4300 children with 240-byte names) that has sub-directories sorting first,
+			// in the middle and last: reading the children back means reading other trees while this one is open
+			var mega []string
+			for i := 0; i < 4300; i++ {
+				mega = append(mega, fmt.Sprintf("mega/%s%04d", strings.Repeat("n", 236), i))
+			}
+			mega = append(mega, "mega/0first/x", "mega/0first/deeper/y", "mega/nmid/"+strings.Repeat("m", 200), "mega/zz last/z")
+			w.EditMany(mega, 3)
+			k.goit("add", "mega")
+			c.Count("C05.histories-with-a-tree-beyond-1MiB")
+			megaHist = true
 		}
 		if w.Hist%24 == 13 {
 			k.BoundaryFiles("blk/")
@@ -296,6 +310,9 @@ func runC05(c *core.Ctx) {
 		}
 		k.Do("commit-all")
 		steps := c.Pick(22, 28)
+		if megaHist {
+			steps = 5 // every step snapshots and decodes the big tree
+		}
 		for i := 0; i < steps; i++ {
 			k.Step()
 			if i == steps/2 && w.Hist%3 == 0 {
